@@ -1,5 +1,7 @@
 pub mod c01;
 pub mod c06;
 pub mod c11;
+pub mod c15;
 pub mod c16;
+pub mod c17;
 pub mod writer_rt;
